@@ -35,6 +35,30 @@ fn gen_array(rng: &mut Rng, ty: u64, n: usize) -> ArrayRef {
             }
         }
     };
+    // values that only differ in ways a careless equality misses: zeros of both
+    // signs (IEEE == calls them equal), and strings that look like the text a
+    // NULL is rendered as
+    let hostile = rng.chance(1, 6);
+    if hostile && ty == 1 {
+        let only_zeros = rng.bool();
+        return Arc::new(Float64Array::from(
+            (0..n)
+                .map(|_| {
+                    if rng.below(100) < nullp {
+                        None
+                    } else if only_zeros || rng.bool() {
+                        Some(if rng.bool() { 0.0 } else { -0.0 })
+                    } else {
+                        Some(*rng.pick(&[f64::NAN, -f64::NAN, 1.0, -1.0]))
+                    }
+                })
+                .collect::<Vec<_>>(),
+        ));
+    }
+    if hostile && ty == 2 {
+        let pool: &[&str] = if rng.bool() { &["NULL"] } else { &["NULL", "null", "", "None", "NaN"] };
+        return Arc::new(StringArray::from((0..n).map(|_| if rng.below(100) < nullp.max(20) { None } else { Some(rng.pick(pool).to_string()) }).collect::<Vec<_>>()));
+    }
     let full: ArrayRef = match ty {
         0 => Arc::new(Int64Array::from((0..n).map(|_| { let v = next(rng); if rng.below(100) < nullp { None } else { Some(v) } }).collect::<Vec<_>>())),
         1 => Arc::new(Float64Array::from((0..n).map(|_| { let v = next(rng); if rng.below(100) < nullp { None } else if rng.chance(1, 20) { Some(*rng.pick(&[f64::NAN, -0.0, f64::INFINITY, 1e308])) } else { Some(v as f64 / 8.0) } }).collect::<Vec<_>>())),
@@ -72,6 +96,10 @@ fn logical_eq(a: &ArrayRef, b: &ArrayRef) -> bool {
             return false;
         }
     }
+    if let (Some(x), Some(y)) = (a.as_any().downcast_ref::<Float64Array>(), b.as_any().downcast_ref::<Float64Array>()) {
+        // bit patterns: -0.0 is not +0.0, every NaN equals itself
+        return (0..x.len()).all(|i| x.is_null(i) || x.value(i).to_bits() == y.value(i).to_bits() || (x.value(i).is_nan() && y.value(i).is_nan()));
+    }
     let opts = arrow::util::display::FormatOptions::default();
     let fa = arrow::util::display::ArrayFormatter::try_new(a.as_ref(), &opts);
     let fb = arrow::util::display::ArrayFormatter::try_new(b.as_ref(), &opts);
@@ -102,7 +130,7 @@ pub fn run(tier: Tier, seed: u64) -> i32 {
         tier,
         seed,
         "exploration",
-        "Int64/Float64/Utf8/Boolean/Int32 arrays of lengths 0..5000 with NULL densities 0/15/60/100%, long runs, constants, few distinct values, overflow-adjacent integers, NaN/-0.0/inf, half of them sliced at a non-zero offset: encode_optimal(a).decode() must equal a logically; filter/compare/add/multiply/sum/count helpers must return what arrow::compute::{filter, cmp::*, numeric::{add,mul}, sum, count} return (value and Ok-vs-Err). distinct = distinct (helper, type, null class, shape, sliced) tuples",
+        "Int64/Float64/Utf8/Boolean/Int32 arrays of lengths 0..5000 with NULL densities 0/15/60/100%, long runs, constants, few distinct values, overflow-adjacent integers, NaN/-0.0/inf, arrays of zeros with both signs, strings that spell NULL next to real NULLs, half of them sliced at a non-zero offset: encode_optimal(a).decode() must equal a logically; filter/compare/add/multiply/sum/count helpers must return what arrow::compute::{filter, cmp::*, numeric::{add,mul}, sum, count} return (value and Ok-vs-Err). distinct = distinct (helper, type, null class, shape, sliced) tuples",
     );
     let mut rng = Rng::new(seed ^ 0xC37);
     let n = tier.pick(6_000, 150_000);
